@@ -600,6 +600,8 @@ impl State {
                 // Sample an outcome based on the probabilities
                 let mut rng = rand::rng();
                 let random_value: f64 = rng.random_range(0.0..1.0);
+                #[cfg(feature = "verif-hooks")]
+                let random_value: f64 = crate::verif_hooks::next_draw(random_value);
 
                 let mut cumulative_probability: f64 = 0.0;
                 let mut sampled_outcome_int: usize = 0;
